@@ -106,3 +106,125 @@ func TestDirtyWindowVisible(t *testing.T) {
 		t.Fatalf("no schedule observed the dirty window")
 	}
 }
+
+// worker pool over an unbuffered job channel: range over channel, close,
+// `go` with a named callee, results over a second unbuffered channel
+func poolWorker(id int, jobs <-chan int, results chan<- [2]int, wg *sync.WaitGroup) {
+	defer WGDone(wg)
+	for j := range ChanIter(jobs) {
+		Yield(7)
+		Send(results, [2]int{j, j*j + id*0})
+	}
+}
+
+func poolWorkload(nJobs, nWorkers int) (sum int, order []int) {
+	jobs := make(chan int)
+	results := make(chan [2]int)
+	var wg sync.WaitGroup
+	WGAdd(&wg, nWorkers)
+	for w := 0; w < nWorkers; w++ {
+		t := Spawn()
+		go GoWrap(t, poolWorker)(w, jobs, results, &wg)
+		Spawned()
+	}
+	t := Spawn()
+	go func() {
+		TaskBegin(t)
+		defer TaskEnd(t)
+		for j := 0; j < nJobs; j++ {
+			Yield(8)
+			Send(jobs, j)
+		}
+		Close(jobs)
+		WGWait(&wg)
+		Close(results)
+	}()
+	Spawned()
+	for r := range ChanIter(results) {
+		Yield(9)
+		sum += r[1]
+		order = append(order, r[0])
+	}
+	return
+}
+
+func TestUnbufferedPool(t *testing.T) {
+	want := 0
+	for j := 0; j < 20; j++ {
+		want += j * j
+	}
+	orders := map[string]bool{}
+	for seed := uint64(1); seed < 40; seed++ {
+		cfgs := []*SchedConfig{
+			{Strategy: StratPrio, PrioRule: PrioMainFirst},
+			{Strategy: StratPrio, PrioRule: PrioWorkersFirst},
+			{Strategy: StratPrio, PrioRule: PrioRandom, PrioSeed: seed, ChangePoints: []int64{int64(seed), int64(seed * 3)}},
+			{Strategy: StratRW, RWSeed: seed, RWMeanGap: 3},
+		}
+		for ci, cfg := range cfgs {
+			run := func(c *SchedConfig) (int, []int, SchedStats, []Decision) {
+				Start(c)
+				s, o := poolWorkload(20, 4)
+				Drain()
+				st := Stop()
+				return s, o, st, Decisions()
+			}
+			s1, o1, st1, d1 := run(cfg)
+			s2, o2, st2, _ := run(cfg)
+			if s1 != want || s2 != want {
+				t.Fatalf("seed %d cfg %d: sum %d/%d want %d", seed, ci, s1, s2, want)
+			}
+			if st1.Hash != st2.Hash || st1.Steps != st2.Steps || len(o1) != len(o2) {
+				t.Fatalf("seed %d cfg %d: not deterministic", seed, ci)
+			}
+			for i := range o1 {
+				if o1[i] != o2[i] {
+					t.Fatalf("seed %d cfg %d: result order differs between identical runs", seed, ci)
+				}
+			}
+			if st1.Rendezvous == 0 {
+				t.Fatalf("no rendezvous counted")
+			}
+			s3, o3, st3, _ := run(&SchedConfig{Strategy: StratExplicit, Explicit: d1})
+			if s3 != want || st3.Hash != st1.Hash {
+				t.Fatalf("seed %d cfg %d: explicit replay diverged", seed, ci)
+			}
+			for i := range o1 {
+				if o1[i] != o3[i] {
+					t.Fatalf("replay order differs")
+				}
+			}
+			k := ""
+			for _, x := range o1 {
+				k += string(rune('a' + x))
+			}
+			orders[k] = true
+		}
+	}
+	if len(orders) < 10 {
+		t.Fatalf("only %d distinct completion orders explored", len(orders))
+	}
+}
+
+func TestTrueDeadlockStillReported(t *testing.T) {
+	// covered by the abort hook: a receive nobody will ever serve
+	got := 0
+	old := OnAbort
+	defer func() { OnAbort = old }()
+	done := make(chan struct{})
+	OnAbort = func(kind int, st SchedStats) {
+		got = kind
+		close(done)
+		select {} // must not return
+	}
+	go func() {
+		Start(&SchedConfig{Strategy: StratPrio, PrioRule: PrioMainFirst})
+		ch := make(chan int)
+		Recv(ch)
+	}()
+	<-done
+	if got != AbortDeadlock {
+		t.Fatalf("abort kind %d", got)
+	}
+	active = false
+}
